@@ -40,7 +40,7 @@ RULES_DOC.update({
     "R5": "every primitive release-stores RUNNING into the target before switching to it",
     "R6": "context init/reinit null the saved context and p_link; dispatchers pick start_and_* iff not started; revive re-initialises",
 })
-VARIANTS = ["active_wait", "no_ext_thread", "lazy_stack"]
+VARIANTS = ["active_wait", "no_ext_thread", "lazy_stack", "no_mem_pool"]
 TECHNIQUE = ("abstract interpretation of the context-switch assembly (symbolic registers, stack slots, RSP residue) "
              "plus path/sequence rules over clang CFG facts")
 
